@@ -226,6 +226,11 @@ func c07Alphabet(quick bool) []c07Elem {
 		"/livesim2/testpic_2s/thumbs/300.jpg?nowMS=610000",
 		"/livesim2/timesubsstpp_en,sv/testpic_2s/timestpp-en/300.m4s?nowMS=610000",
 		"/livesim2/timesubswvtt_en/testpic_2s/timewvtt-en/300.m4s?nowMS=610000",
+		// a second generated-subtitle request with other content (language, number) and a second SCTE-35 carrier with another event
+		"/livesim2/timesubsstpp_en,sv/testpic_2s/timestpp-sv/301.m4s?nowMS=610000",
+		"/livesim2/timesubswvtt_en/testpic_2s/timewvtt-en/301.m4s?nowMS=610000",
+		"/livesim2/scte35_2/testpic_2s/V300/301.m4s?nowMS=610000",
+		"/livesim2/scte35_2/testpic_2s/V300/331.m4s?nowMS=670000",
 		"/livesim2/scte35_1/testpic_2s/V300/300.m4s?nowMS=610000",
 		"/livesim2/ato_1/chunkdur_1000/testpic_2s/V300/300.m4s?nowMS=601500",
 		"/livesim2/ato_1/chunkdur_1000/testpic_2s/A48/300.m4s?nowMS=601500",
